@@ -112,8 +112,13 @@ theorem blocked_sets_error_and_no_connect (servers : List Server) (dh : Text) (d
     Ev.socketOpen ∉ openTrace servers dh dp tp connectOk := by
   simp [openTrace, serverConnect, h, openConnection]
 
-/-- **C23.** An upstream connection is never opened to a destination that denotes one of
-    mitmproxy's own listening sockets; the request fails with the destination-unknown error. -/
+/-- **C23, for the spellings of the property's quantifier.** An upstream connection is never opened to a
+    destination that denotes one of mitmproxy's own listening sockets; the request fails with the
+    destination-unknown error. "Denotes" is `denotesOwnSocket`: `localhost` in any ASCII case with an optional
+    trailing dot and every spelling `ipaddress` parses (all of 127.0.0.0/8, `::1`, IPv4-mapped loopback,
+    `0.0.0.0`, `::`, the listen address in any notation) — exactly the spellings properties.jsonl lists.
+    Spellings only the resolver understands (`127.1`, `2130706433`, …) are NOT covered and do reach the socket:
+    `resolver_spelling_counterexample`, recorded finding F-C23b. -/
 theorem own_socket_never_connected (servers : List Server) (dh : Text) (dp : Nat) (tp : Transport)
     (connectOk : Bool) (h : denotesOwnSocket servers dh dp tp = true) :
     Ev.socketOpen ∉ openTrace servers dh dp tp connectOk ∧
